@@ -62,11 +62,12 @@ impl CounterCollection {
         let new_count = counter.count();
         let info = self.info_mut(counter.known_kind());
 
-        if let Some(old_count) = info.counts.first_mut() {
-            *old_count = new_count;
-        } else {
-            info.counts.push(new_count);
-        }
+        // Override an existing counter of the same kind, including one that
+        // is based on inputs: its counts are indexed by sample, so keeping
+        // them next to a constant count would misattribute every sample.
+        info.count_input = None;
+        info.counts.clear();
+        info.counts.push(new_count);
     }
 
     pub(crate) fn push_counter(&mut self, counter: AnyCounter) {
